@@ -43,7 +43,7 @@ static void q_init(void)
 	int i;
 
 	api = (int)vrt_param("api", 0);
-	unlocked = api == 1 || api == 2;
+	unlocked = api == 1 || api == 2 || api == 4;
 	for (i = 0; i < 8; i++) {
 		cds_wfcq_node_init(&items[i].n);
 		items[i].id = i;
@@ -97,6 +97,11 @@ static long do_deq(int q)
 		h = vrt_h_call(OP_DEQ_NB, q, 0);
 		n = __cds_wfcq_dequeue_with_state_nonblocking(H(q), &tail[q], &state);
 		vrt_h_ret2(h, node_id(n), n == CDS_WFCQ_WOULDBLOCK ? -1 : !!(state & CDS_WFCQ_STATE_LAST));
+		break;
+	case 4:
+		h = vrt_h_call(OP_DEQ, q, 0);
+		n = __cds_wfcq_dequeue_with_state_blocking(H(q), &tail[q], &state);
+		vrt_h_ret2(h, node_id(n), !!(state & CDS_WFCQ_STATE_LAST));
 		break;
 	default:
 		h = vrt_h_call(OP_DEQ, q, 0);
@@ -460,7 +465,8 @@ static void l_enq(int id)
 static long l_deq(void)
 {
 	int h = vrt_h_call(OP_DEQ, 0, 0);
-	struct cds_wfq_node *n = cds_wfq_dequeue_blocking(&lq);
+	/* single=1: one dequeuer, which therefore may use the unsynchronised entry point */
+	struct cds_wfq_node *n = vrt_param("single", 0) ? __cds_wfq_dequeue_blocking(&lq) : cds_wfq_dequeue_blocking(&lq);
 	long id = n ? caa_container_of(n, struct litem, n)->id : 0;
 
 	vrt_h_ret2(h, id, -1);
@@ -495,12 +501,14 @@ static void run_legacy(void)
 	cds_wfq_init(&lq);
 	pthread_create(&a, NULL, lt_enq12, NULL);
 	pthread_create(&b, NULL, lt_enq3, NULL);
-	pthread_create(&c, NULL, lt_deq, NULL);
+	if (!vrt_param("single", 0))
+		pthread_create(&c, NULL, lt_deq, NULL);
 	l_deq();
 	l_deq();
 	pthread_join(a, NULL);
 	pthread_join(b, NULL);
-	pthread_join(c, NULL);
+	if (!vrt_param("single", 0))
+		pthread_join(c, NULL);
 	while (l_deq() > 0)
 		;
 	vrt_lin_assert(&lspec, "legacy wfq");
@@ -508,6 +516,7 @@ static void run_legacy(void)
 		if (vrt_h_get(i)->op == OP_DEQ && vrt_h_get(i)->ret > 0)
 			tot++;
 	VRT_CHECK(tot == 3, "legacy wfq: %d of 3 nodes came out", tot);
+	cds_wfq_destroy(&lq);
 }
 
 struct vrt_scenario vrt_scenarios[] = {
